@@ -201,6 +201,21 @@ func Fixed() []*Grammar {
 			P("V", Al(none, "num"), Al(Call(A(1)), `"<"`, "V", `">"`), Al(Call(), `"~"`)),
 		}})
 
+	// splitrules: nonterminals defined by several rules with other rules in between
+	add(&Grammar{ID: "splitrules", Seps: wsSeps,
+		Lex: append(letters(),
+			LexDef{Kind: LexToken, Name: "id", Pattern: `_letter {_letter}`, Samples: []string{"a", "bc", "xyz"}},
+			LexDef{Kind: LexToken, Name: "num", Pattern: `_digit {_digit}`, Samples: []string{"0", "31"}},
+			ws()),
+		Prods: []*Prod{
+			P("Prog", Al(Call(A(0)), "Item"), Al(Call(A(0), A(1), A(2)), "Prog", "Sep", "Item")),
+			P("Item", Al(Call(T(0)), "id")),
+			P("Sep", Al(Call(), `","`), Al(Call(), `";"`)),
+			P("Item", Al(Call(T(0)), "num"), Al(Call(A(1)), `"("`, "Prog", `")"`)),
+			P("Sep", Al(Call(T(0)), `"|"`)),
+			P("Item", Al(CallCtx(A(1)), `"<"`, "Item", `">"`)),
+		}})
+
 	// multiline: action expressions that span several lines and carry string
 	// constants (raw strings with line breaks and leading blanks, quotes, `$`-free)
 	add(&Grammar{ID: "multiline", Seps: wsSeps,
